@@ -26,3 +26,11 @@ func verifMuxErr(err error) string {
 	}
 	return "io"
 }
+
+// VerifSetCorrelationID presets the Conn's correlation id counter (the next request uses v+1), so that a harness can
+// run the multiplexer across the int32 wrap. Call it before the first request.
+func (c *Conn) VerifSetCorrelationID(v int32) {
+	c.wlock.Lock()
+	c.correlationID = v
+	c.wlock.Unlock()
+}
